@@ -29,3 +29,9 @@ Theorem audit_is_not_stale :
           audited = true.
 Proof. exact audit_entries_exist. Qed.
 Print Assumptions audit_is_not_stale.
+
+(* The library refers to no libc function that POSIX allows to keep process-wide hidden state
+   (strtok, rand, localtime, gmtime, setlocale, getenv, strerror, ...; c2mir uses localtime_r). *)
+Theorem no_thread_unsafe_libc_calls : unsafe_libc_refs = nil.
+Proof. exact no_unsafe_libc. Qed.
+Print Assumptions no_thread_unsafe_libc_calls.
